@@ -445,6 +445,12 @@ func c15Out(c *Ctx, r *Report) {
 		}
 		r.check(len(ps) == 0, "C15.R4.sender", w.fn+":mac-chain", c.pos(wf.Pos()), "MAC in, MAC out", "%s", strings.Join(ps, "; "))
 	}
+	// a new signed request on a connection that served a transfer starts a fresh chain
+	if _, chain, pos, ok := serverTsigState(c); !ok {
+		r.cerr("C15.R4.sender", "Server.serveDNS:chain-reset", "function not found")
+	} else {
+		r.check(len(chain) == 0, "C15.R4.sender", "Server.serveDNS:chain-reset", pos, "timers-only off, request MAC set", "%s", strings.Join(chain, "; "))
+	}
 }
 
 // backTarget: block is the target of a back edge (a loop header).
